@@ -120,6 +120,69 @@ pub struct SeqProp {
     pub keyspace_oracle: bool,
     /// extra ops for C12 (old handles etc.)
     pub c12_ops: bool,
+    /// C18: compaction filter oracle
+    pub filter_oracle: Option<FilterSpec>,
+}
+
+/// A deterministic compaction filter decided from the key, and the keyspaces it is assigned to.
+#[derive(Clone, Copy, Debug)]
+pub struct FilterSpec {
+    /// assigned to keyspace index i?
+    pub assign: [bool; 3],
+    /// 0 keep-all, 1 remove keys starting with `a`, 2 replace the value of `b` by `R`, 3 both
+    pub kind: u8,
+}
+
+impl FilterSpec {
+    /// filtered form of (key, value): None = removed
+    pub fn filtered(&self, key: &[u8], value: &[u8]) -> Option<Option<Vec<u8>>> {
+        let removes = self.kind == 1 || self.kind == 3;
+        let replaces = self.kind == 2 || self.kind == 3;
+        if removes && key.starts_with(b"a") {
+            return Some(None);
+        }
+        if replaces && key == b"b" && value != b"R" {
+            return Some(Some(b"R".to_vec()));
+        }
+        None
+    }
+
+    pub fn assigner(&self) -> fjall_filter::Assigner {
+        use fjall::compaction::filter::{CompactionFilter, Context, Factory, ItemAccessor, Verdict};
+        struct F(u8);
+        impl CompactionFilter for F {
+            fn filter_item(&mut self, item: ItemAccessor<'_>, _ctx: &Context) -> lsm_tree::Result<Verdict> {
+                let removes = self.0 == 1 || self.0 == 3;
+                let replaces = self.0 == 2 || self.0 == 3;
+                let k = item.key();
+                if removes && k.starts_with(b"a") {
+                    return Ok(Verdict::Remove);
+                }
+                if replaces && &**k == b"b" {
+                    return Ok(Verdict::ReplaceValue(b"R".as_slice().into()));
+                }
+                Ok(Verdict::Keep)
+            }
+        }
+        struct Fac(u8);
+        impl Factory for Fac {
+            fn name(&self) -> &str {
+                "verif"
+            }
+            fn make_filter(&self, _ctx: &Context) -> Box<dyn CompactionFilter> {
+                Box::new(F(self.0))
+            }
+        }
+        let spec = *self;
+        std::sync::Arc::new(move |name: &str| {
+            let idx = KS_NAMES.iter().position(|n| *n == name)?;
+            if spec.assign[idx] {
+                Some(std::sync::Arc::new(Fac(spec.kind)) as std::sync::Arc<dyn Factory>)
+            } else {
+                None
+            }
+        })
+    }
 }
 
 impl SeqProp {
@@ -135,6 +198,7 @@ impl SeqProp {
             journal_oracle: false,
             keyspace_oracle: false,
             c12_ops: false,
+            filter_oracle: None,
         }
     }
 }
@@ -177,6 +241,10 @@ impl Property for SeqProp {
     fn step_check(&self, w: &mut World) -> Result<(), Violation> {
         if w.db.is_some() && w.dbi().journal_count() < 1 {
             return Err(Violation::new("journal_count", "journal_count() < 1"));
+        }
+        if let Some(spec) = self.filter_oracle {
+            // per-key automaton after EVERY step, so that "filtered once observed" accumulates along the program
+            self.check_filtered_keys(w, &spec)?;
         }
         if self.keyspace_oracle && w.db.is_some() {
             let want: Vec<String> = w.model.keys().map(|k| ksn(*k).to_string()).collect();
@@ -243,6 +311,9 @@ impl Property for SeqProp {
         w.note_structure();
         if self.journal_oracle {
             return self.check_quiescence(w);
+        }
+        if let Some(spec) = self.filter_oracle {
+            return self.check_filtered(w, &spec);
         }
         if self.judge_only_after_reopen && w.wit.reopened == 0 {
             // not this property's business; still compute digests when it agrees
@@ -363,6 +434,79 @@ fn fresh_dir_like() -> PathBuf {
 }
 
 impl SeqProp {
+    fn check_filtered_keys(&self, w: &mut World, spec: &FilterSpec) -> Result<(), Violation> {
+        self.check_filtered_impl(w, spec, false).map(|_| ())
+    }
+
+    /// C18: every key is in its original or (if assigned) its filtered form, filtered stays filtered.
+    fn check_filtered(&self, w: &mut World, spec: &FilterSpec) -> Result<Vec<u64>, Violation> {
+        self.check_filtered_impl(w, spec, true)
+    }
+
+    fn check_filtered_impl(&self, w: &mut World, spec: &FilterSpec, full: bool) -> Result<Vec<u64>, Violation> {
+        let mut digests = vec![];
+        if w.db.is_none() {
+            return Ok(digests);
+        }
+        let kss: Vec<u8> = w.model.keys().copied().collect();
+        for ks in kss {
+            let h = w.ks[&ks].clone();
+            let m = w.model[&ks].clone();
+            let mut effective = m.clone();
+            for (k, v) in &m {
+                let got = h.get(k).map_err(|e| Violation::new("op_error", format!("{e:?}")))?.map(|x| x.to_vec());
+                let filt = if spec.assign[ks as usize] { spec.filtered(k, v) } else { None };
+                let was_filtered = w.filtered_seen.contains(&(ks, k.clone()));
+                if got.as_ref() == Some(v) {
+                    if was_filtered {
+                        return Err(Violation::new(
+                            "filter.unfiltered_again",
+                            format!("keyspace {} key {}: observed filtered earlier, now back to the original {}", ksn(ks), show_key(k), show_val(v)),
+                        ));
+                    }
+                    if filt.is_some() && w.must_filtered.contains(&(ks, k.clone())) {
+                        return Err(Violation::new(
+                            "filter.not_in_effect",
+                            format!("keyspace {} key {}: its newest version went through a major compaction with the filter assigned, but it still shows the original {}", ksn(ks), show_key(k), show_val(v)),
+                        ));
+                    }
+                } else if let Some(f) = filt {
+                    if got == f {
+                        w.filtered_seen.insert((ks, k.clone()));
+                        match f {
+                            Some(nv) => {
+                                effective.insert(k.clone(), nv);
+                            }
+                            None => {
+                                effective.remove(k);
+                            }
+                        }
+                    } else {
+                        return Err(Violation::new(
+                            "filter.neither_original_nor_filtered",
+                            format!("keyspace {} key {}: got {:?}, original {}, filtered {:?}", ksn(ks), show_key(k), got.as_ref().map(|g| show_val(g)), show_val(v), f.as_ref().map(|g| show_val(g))),
+                        ));
+                    }
+                } else {
+                    return Err(Violation::new(
+                        if spec.assign[ks as usize] { "filter.kept_item_altered" } else { "filter.unassigned_keyspace_altered" },
+                        format!("keyspace {} key {}: got {:?}, expected {}", ksn(ks), show_key(k), got.as_ref().map(|g| show_val(g)), show_val(v)),
+                    ));
+                }
+            }
+            if !full {
+                continue;
+            }
+            let got = observe_ks(&h, self.probe);
+            let want = observe_model(&effective, self.probe);
+            if got != want {
+                return Err(Violation::new("observe!=model", format!("keyspace {}: {} (effective model {})", ksn(ks), got.diff(&want), show_map(&effective))));
+            }
+            digests.push(got.digest());
+        }
+        Ok(digests)
+    }
+
     /// C10: content equals the model; then flush every keyspace and drain the queue: exactly one journal remains.
     fn check_quiescence(&self, w: &mut World) -> Result<Vec<u64>, Violation> {
         let mut digests = w.check_all(self.probe)?;
@@ -459,6 +603,17 @@ pub fn prefix(name: &str) -> Vec<Op> {
             "ins x.a=2",
             "rotate x",
             "step+jrot WorkerMessage:Flush",
+        ]),
+        // x and y each hold a, b in an L0 table (C18: next compaction applies the filter)
+        "both_flushed" => p(&[
+            "ins x.a=1",
+            "ins x.b=1",
+            "ins y.a=1",
+            "ins y.b=2",
+            "rotate x",
+            "rotate y",
+            "step WorkerMessage:Flush",
+            "step WorkerMessage:Flush",
         ]),
         other => panic!("unknown prefix {other}"),
     }
